@@ -17,7 +17,10 @@ RULE = ("cases from the seed: ONE electric plane: symmetry axis 0..2, half size 
         "iso / diagonal inv_mu, optional sigma_E / sigma_H, all constant along the symmetric axes; SEVERAL planes (every run, every "
         "seed): symmetry (-1,-1,0), (-1,0,-1), (0,-1,-1) and (-1,-1,-1), half sizes 2..3, far none/pmc (thorough also pec), always "
         "with a FieldDetector(exact_interpolation) touching all planes - the whole volume or a 4-cell box centred on the planes, "
-        "so the line where two planes meet and the corner cell are recorded. Random reduced fields with the PEC-mirror parity on "
+        "so the line where two planes meet and the corner cell are recorded. Detector layout `tie` (forced for axes 0, 2 and the "
+        "pair (1,2), random otherwise): three one-cell slabs on the first symmetric axis, spanning all other axes: lower face "
+        "exactly ON the plane (kept, not clipped: its record must come back un-mirrored with the full-domain shape), upper face "
+        "exactly on the plane (discarded half: must be dropped), strictly inside the kept half. Random reduced fields with the PEC-mirror parity on "
         "every plane (tangential E and normal H zero on it), full-domain initial state = fdtdx.unfold_fields of them; m+2 steps "
         "(pmc: m+4; several planes: min m + 1). Oracle per step n, with c_a the full cell index along each symmetric axis a: "
         "|unfold(reduced) - full| <= 1e-12 wherever c_a >= n + d for all a, d = 0 (none, pmc), 1 (pec, pml) [the asymmetry of "
@@ -68,7 +71,7 @@ def gen_case(rng, thorough, force=None):
     c["mu_tier"] = rng.choice([0, 0, 1, 3])
     c["sig_e"] = rng.chance(0.3)
     c["sig_h"] = rng.chance(0.2)
-    c["det"] = rng.choice(["", "", "vol", "vol"])
+    c["det"] = rng.choice(["", "", "vol", "tie"])
     c["seed"] = rng.np_seed()
     if force:
         force = dict(force)
@@ -88,15 +91,17 @@ def gen_case(rng, thorough, force=None):
         c["nonuniform"] = False
     if all(m == 1 for m in c["ms"]) and all(n == 1 for n in c["tshape"]):
         c["ms"][0] = 2          # a 1x1x1 reduced volume trips place_objects' sharding helper (unrelated to the property)
-    if c["det"] == "box" and (min(c["ms"]) < 2 or c["nonuniform"]):
+    if c["det"] == "box" and min(c["ms"]) < 2:
         c["det"] = "vol"
+    if c["det"] == "tie":
+        c["nonuniform"] = False          # slabs are placed by grid index (GridCoordinateConstraint: uniform grids only)
     return c
 
 
 def gen_multi(rng, axes, force=None):
     """two or three electric planes at once; always with a co-located detector touching all of them"""
     f = dict(axes=list(axes), ms=[rng.choice([2, 3]) for _ in axes], far=rng.choice(["none", "none", "pmc", "pec"]),
-             nonuniform=False, det=rng.choice(["vol", "box"]))
+             nonuniform=False, det=rng.choice(["vol", "box", "tie"]))
     if f["far"] == "pec":
         f["ms"] = [3 for _ in axes]      # with a far PEC layer the plane rows enter the compared region only for m >= 3
     f.update(force or {})
@@ -151,31 +156,57 @@ def widths_of(c):
     return w
 
 
-def det_region(c):
-    """full-domain cell range of the detector per axis: the whole volume, or a box of 4 cells centred on every plane
-    (it straddles all planes: meeting line and corner cell included) spanning the other axes"""
+def detectors_of(c):
+    """[(name, region)] with region = full-domain cell range per axis.
+    vol : one detector = the whole volume;  box : 4 cells centred on every plane (meeting line and corner included);
+    tie : along the FIRST symmetric axis (half size m) three one-cell slabs spanning the other axes -
+          det_up [m, m+1)   lower face exactly ON the plane, entirely in the kept half (stored record is already the full one),
+          det_lo [m-1, m)   upper face exactly on the plane, entirely in the discarded half (dropped by the reduction),
+          det_in [m+1, m+2) strictly inside the kept half (only for m >= 2)
+          (on the other symmetric axes of a several-plane case the slabs span, i.e. straddle those planes)."""
     fs = full_shape(c)
-    reg = [(0, n) for n in fs]
-    if c["det"] == "box":
+    whole = [(0, n) for n in fs]
+    if not c["det"]:
+        return []
+    if c["det"] == "vol":
+        return [("det", whole)]
+    box = list(whole)
+    if min(c["ms"]) >= 2:
         for a, m in zip(c["axes"], c["ms"]):
-            reg[a] = (m - 2, m + 2)
-    return reg
+            box[a] = (m - 2, m + 2)
+    if c["det"] == "box":
+        return [("det", box)]
+    a, m = c["axes"][0], c["ms"][0]
+    out = []
+    for nm, lo in (("det_up", m), ("det_lo", m - 1), ("det_in", m + 1)):
+        if lo + 1 <= 2 * m - (1 if nm == "det_in" else 0) and (nm != "det_in" or m >= 2):
+            r = list(whole)
+            r[a] = (lo, lo + 1)
+            out.append((nm, r))
+    return out
 
 
 def detector_fn(c):
-    if not c["det"]:
+    dets = detectors_of(c)
+    if not dets:
         return None
     f = Y.J()["fdtdx"]
     jnp = Y.J()["jnp"]
+    fs = full_shape(c)
 
     def fn(vol):
-        if c["det"] == "vol":
-            d = f.FieldDetector(name="det", exact_interpolation=True, reduce_volume=False, dtype=jnp.float64, plot=False)
-            return [d], list(d.same_position_and_size(vol))
-        shape = [4 if a in c["axes"] else None for a in range(3)]
-        d = f.FieldDetector(name="det", exact_interpolation=True, reduce_volume=False, dtype=jnp.float64, plot=False,
-                            partial_grid_shape=tuple(shape))
-        return [d], [d.place_at_center(vol, axes=tuple(c["axes"]))]
+        objs, cons = [], []
+        for nm, reg in dets:
+            part = [r[1] - r[0] if r != (0, n) else None for r, n in zip(reg, fs)]
+            d = f.FieldDetector(name=nm, exact_interpolation=True, reduce_volume=False, dtype=jnp.float64, plot=False,
+                                partial_grid_shape=tuple(part))
+            objs.append(d)
+            if all(p is None for p in part):
+                cons += list(d.same_position_and_size(vol))
+            else:
+                ax = tuple(a for a in range(3) if part[a] is not None)
+                cons.append(d.set_grid_coordinates(axes=ax, sides=tuple("-" for _ in ax), coordinates=tuple(reg[a][0] for a in ax)))
+        return objs, cons
     return fn
 
 
@@ -265,7 +296,11 @@ def run_both(c, nsteps):
             un = j["fdtdx"].unfold_detector_states(ar, red.objects, red.config)
         except Exception as e:
             raise UnfoldFailure(f"unfold_detector_states raises: {type(e).__name__}: {str(e)[:160]}")
-        det = (np.asarray(un.detector_states["det"]["fields"]), np.asarray(af.detector_states["det"]["fields"]))
+        det = {}
+        for nm, reg in detectors_of(c):
+            ufull = np.asarray(af.detector_states[nm]["fields"])
+            ured = np.asarray(un.detector_states[nm]["fields"]) if nm in un.detector_states else None
+            det[nm] = (ured, ufull)
     return full, red, sym, R, F, hist, det
 
 
@@ -321,23 +356,33 @@ def oracle(c, sym, hist, det):
             if b:
                 return f"{nm} after step {n}: reduced run differs from the kept part of the full run by {b[1]:.3e} at {b[0]} ({where})", info
     if det is not None:
-        ur, uf = det
-        if ur.shape != uf.shape:
-            return f"unfolded detector record has shape {ur.shape}, the full-domain one {uf.shape} ({where})", info
-        reg = det_region(c)
-        start = tuple(r[0] for r in reg)
-        # the co-location stencil reads one cell back along x, y and forward along z; the outermost cell of an unfolded box
-        # that does not span the axis is a filler (its mirror partner lies outside the reduced detector) on x, y
-        skip = tuple(a for a in c["axes"] if a in (0, 1) and reg[a][0] > 0)
-        for n in range(1, len(hist) + 1):
-            mask = cone_mask(c, ur.shape[2:], n, lambda a: 0 if a == 2 else 1, start=start, skip_first=skip)
-            info["compared_cells"] += int(mask.sum())
-            b = first_bad(np.abs(ur[n - 1] - uf[n - 1]), mask)
-            if b:
-                comp = ["Ex", "Ey", "Ez", "Hx", "Hy", "Hz"][b[0][0]]
-                cell = tuple(x + s0 for x, s0 in zip(b[0][1:], start))
-                return (f"detector row of step {n}: unfold_detector_states(reduced) differs from the full-domain record by "
-                        f"{b[1]:.3e} in {comp} at full cell {cell} ({where}, detector {c['det']})"), info
+        ms = dict(zip(c["axes"], c["ms"]))
+        for nm, reg in detectors_of(c):
+            ur, uf = det[nm]
+            kept = all(reg[a][1] > ms[a] for a in c["axes"])        # reaches into the kept part on every symmetric axis
+            if ur is None:
+                if kept:
+                    return f"detector {nm} (full cells {reg}) has no record in the reduced run although it reaches the kept part ({where})", info
+                continue
+            if not kept:
+                return f"detector {nm} (full cells {reg}) lies in a discarded half but the reduced run records it ({where})", info
+            if ur.shape != uf.shape:
+                return (f"unfolded record of detector {nm} (full cells {reg}) has shape {ur.shape}, the full-domain one {uf.shape} "
+                        f"({where})"), info
+            start = tuple(r[0] for r in reg)
+            # the co-location stencil reads one cell back along x, y and forward along z; the outermost cell of an unfolded
+            # detector that straddles a plane without spanning the axis is a filler (its mirror partner lies outside the
+            # reduced detector) on x, y
+            skip = tuple(a for a in c["axes"] if a in (0, 1) and 0 < reg[a][0] < ms[a])
+            for n in range(1, len(hist) + 1):
+                mask = cone_mask(c, ur.shape[2:], n, lambda a: 0 if a == 2 else 1, start=start, skip_first=skip)
+                info["compared_cells"] += int(mask.sum())
+                b = first_bad(np.abs(ur[n - 1] - uf[n - 1]), mask)
+                if b:
+                    comp = ["Ex", "Ey", "Ez", "Hx", "Hy", "Hz"][b[0][0]]
+                    cell = tuple(x + s0 for x, s0 in zip(b[0][1:], start))
+                    return (f"detector row of step {n}: unfold_detector_states(reduced) differs from the full-domain record by "
+                            f"{b[1]:.3e} in {comp} at full cell {cell} ({where}, detector {nm} on full cells {reg})"), info
     return None, info
 
 
@@ -414,9 +459,9 @@ def odd_case(ctx, c):
 
 
 FORCED = [
-    dict(axis=0, m=3, far="none", tshape=[3, 2], tfaces=[["periodic", "periodic"], ["pec", "pmc"]], det=True, nonuniform=False, eps_tier=3),
+    dict(axis=0, m=3, far="none", tshape=[3, 2], tfaces=[["periodic", "periodic"], ["pec", "pmc"]], det="tie", nonuniform=False, eps_tier=3),
     dict(axis=1, m=2, far="pec", tshape=[2, 3], tfaces=[["none", "none"], ["periodic", "periodic"]], det=True, nonuniform=True, sig_e=True),
-    dict(axis=2, m=2, far="pmc", tshape=[3, 1], tfaces=[["pec", "none"], ["none", "none"]], det=True, nonuniform=False, mu_tier=3, sig_h=True),
+    dict(axis=2, m=2, far="pmc", tshape=[3, 1], tfaces=[["pec", "none"], ["none", "none"]], det="tie", nonuniform=False, mu_tier=3, sig_h=True),
     dict(axis=2, m=1, far="none", tshape=[2, 2], tfaces=[["periodic", "periodic"], ["periodic", "periodic"]], det=False),
     dict(axis=0, m=2, far="periodic", tshape=[2, 2], tfaces=[["none", "none"], ["pmc", "pmc"]], det=False),
     dict(axis=1, m=3, far="pml", tshape=[2, 2], tfaces=[["periodic", "periodic"], ["none", "none"]], det=False),
@@ -426,7 +471,7 @@ FORCED = [
 MULTI = [
     dict(axes=[0, 1], ms=[2, 2], far="none", det="vol", tshape=[2], tfaces=[["periodic", "periodic"]]),
     dict(axes=[0, 2], ms=[3, 2], far="pmc", det="box", tshape=[2], tfaces=[["none", "none"]]),
-    dict(axes=[1, 2], ms=[2, 3], far="none", det="vol", tshape=[1], tfaces=[["pec", "pec"]], eps_tier=3),
+    dict(axes=[1, 2], ms=[2, 3], far="none", det="tie", tshape=[1], tfaces=[["pec", "pec"]], eps_tier=3),
     dict(axes=[0, 1, 2], ms=[2, 2, 2], far="none", det="vol", tshape=[], tfaces=[]),
 ]
 
@@ -438,7 +483,7 @@ def multi_cases(rng, thorough):
         if len(f["axes"]) == 2:        # vary half sizes, far kind and detector kind over the seeds; the axes pairs stay fixed
             f["ms"] = [rng.choice([2, 3]), rng.choice([2, 3])]
             f["far"] = rng.choice(["none", "none", "pmc"])
-            f["det"] = rng.choice(["vol", "box"])
+            f["det"] = rng.choice(["vol", "box"]) if f["det"] != "tie" else "tie"
         out.append(gen_case(rng, False, f))
     if thorough:
         for i in range(12):
